@@ -17,6 +17,12 @@ CHECKS = {
  "C07": dict(technique="metamorphic stateful property testing (proptest op sequences): warm index with interleaved queries == cold twin with the same analyses",
              text="Generated-input search over programs of analyses, edits and queries; oracle is equality of every warm answer with the answer of a cold twin index. Exploration only.",
              note="trusted: the implementation on a fresh database as reference; in-memory paths for the main tier", ref="DESIGN.md 4 C07", engine="vengine"),
+ "C02": dict(technique="model-based property testing (proptest): reference model with self-exclusion at every column of overriding definition lines",
+             text="Generated-input search over override chains; oracle is the reference model (next link outward, reference sets per link). Exploration only.",
+             note="trusted: reference model (model.rs), renderer token table; single-line signatures", ref="DESIGN.md 4 C02", engine="vengine"),
+ "C16": dict(technique="model-based property testing (proptest): reference definition-level dependency graph (SCCs, scope order) vs reported diagnostics",
+             text="Generated-input search over dependency graphs spread across files; oracle is the model's definition-level graph: reported paths must be real closed chains, cyclic SCCs must be reported, scope warnings must equal the model set, reports must be stable under recomputation. Exploration only.",
+             note="trusted: reference model (model.rs); Tarjan SCC in the harness", ref="DESIGN.md 4 C16", engine="vengine"),
 }
 PENDING = {
 }
